@@ -1,6 +1,7 @@
 (* C20 correspondence: the harness's observations of the real
    rangeRetryReader, compared with the model and judged by the validator. *)
-From Apko Require Export Base.Prelude Model.Transport Generated.Transport Spec.TransportSpec.
+From Apko Require Export Base.Prelude Model.Transport Generated.Transport Generated.TransportShape Spec.TransportSpec
+  Model.TransportReq Model.TransportCache.
 Open Scope string_scope. Open Scope list_scope.
 
 (* same formula as genData in harness/cmd/c20 *)
@@ -15,9 +16,12 @@ Definition out_eqb (a b : list N * err) : bool :=
   list_eqb N.eqb (fst a) (fst b) && err_eqb (snd a) (snd b).
 
 Record scripted_case := {
-  c_kind : skind; c_bare : bool; c_seed : nat; c_len : nat;
+  c_kind : skind; c_bare : bool; c_ebody : list N; c_seed : nat; c_len : nat;
   c_reads : list rd_ev; c_conns : list conn_ev; c_bufs : list nat;
-  o_opened : bool; o_outs : list (list N * err); o_reqs : list (option nat)
+  o_opened : bool; o_outs : list (list N * err);
+  (* per request the transport saw: bytes handed over by the Reads completed before it,
+     every value of its Range header (bytes=<n>- parsed) *)
+  o_sent : list (nat * list nat)
 }.
 
 (* finding C20-F1: end-of-file before the last byte is listed only for sessions
@@ -35,18 +39,24 @@ Definition live_case (c : scripted_case) : bool :=
   tolerated (c_len c) (c_kind c) retry_schedule (c_bufs c) 0 (c_reads c) &&
   Nat.ltb (c_len c) (List.length (c_bufs c)).
 
+Definition sent_eqb (a b : nat * list nat) : bool :=
+  Nat.eqb (fst a) (fst b) && list_eqb Nat.eqb (snd a) (snd b).
+(* c20_range_header_is_progress on what the transport saw *)
+Definition sent_ok (ph : nat * list nat) : bool := list_eqb Nat.eqb (snd ph) (range_values (fst ph)).
+
 Definition check_scripted (c : scripted_case) : list string :=
   let dat := gen_data (c_seed c) (c_len c) in
-  let srv := {| data := dat; kind := c_kind c; bare := c_bare c |} in
+  let srv := {| base := {| data := dat; kind := c_kind c; bare := c_bare c |}; ebody := c_ebody c |} in
   List.map (narrow_eof (unframed (c_conns c))) (valid_outs dat [] (o_outs c)) ++
   tag_if (live_case c && negb (o_opened c && complete_b dat (o_outs c))) "viol:tolerable-faults-not-survived" ++
-  match session srv retry_schedule (c_reads c) (c_conns c) (c_bufs c) with
+  tag_if (negb (forallb sent_ok (o_sent c))) "viol:range-header-not-progress" ++
+  match session_r code_shape srv retry_schedule (c_reads c) (c_conns c) (c_bufs c) with
   | Ok None => tag_if (o_opened c) "mismatch:model-open-fails-impl-opens"
   | Ok (Some (s, outs)) =>
       tag_if (negb (o_opened c)) "mismatch:model-opens-impl-fails" ++
       (if o_opened c then
          tag_if (negb (list_eqb out_eqb outs (o_outs c))) "mismatch:read-results" ++
-         tag_if (negb (list_eqb (option_eqb Nat.eqb) (reqs s) (o_reqs c))) "mismatch:range-requests"
+         tag_if (negb (list_eqb sent_eqb (rsent s) (o_sent c))) "mismatch:range-requests"
        else [])
   | _ => ["mismatch:model-out-of-fuel"]
   end.
@@ -68,3 +78,59 @@ Definition check_http (c : http_case) : list string :=
   else []) ++
   tag_if (h_live c && negb (h_opened c && is_eof (h_err c) && list_eqb N.eqb (h_got c) dat))
     "viol:tolerable-faults-not-survived".
+
+(* ---- the index download (fetchRepositoryIndex), plain and through the cache ---- *)
+(* i_cached: a cache directory is configured (etag-keyed entries). i_conn / i_reads:
+   what the FIRST download's GET meets, in the model's alphabet (a response cut
+   after k body bytes = one body read that delivers up to k bytes and fails; a
+   close-delimited response closed cleanly = CCloseDelim); the second download
+   meets a healthy server. i_model: the cut is one the model describes (not a
+   reset of a close-delimited response, which net/http may or may not see).
+   Observed: what each download returned (None = an error), and for the cached
+   path the content advertised under the etag's name and the number of *.tmp
+   files in the cache directory after each. *)
+Record index_case := {
+  i_seed : nat; i_len : nat; i_cached : bool; i_model : bool;
+  i_conn : conn_ev; i_reads : list rd_ev; i_live : bool;
+  o_res1 : option (list N); o_adv1 : option (list N); o_tmps1 : nat;
+  o_res2 : option (list N); o_adv2 : option (list N); o_tmps2 : nat
+}.
+
+Definition bytes_opt_eqb := option_eqb (list_eqb N.eqb).
+
+Definition check_index (c : index_case) : list string :=
+  let dat := gen_data (i_seed c) (i_len c) in
+  let unfr := negb (framed_ev (i_conn c)) in
+  let short (r : option (list N)) := match r with Some b => negb (list_eqb N.eqb b dat) | None => false end in
+  let altered (r : option (list N)) := match r with Some b => negb (is_prefix b dat) | None => false end in
+  let sfx (t : string) := if unfr then (t ++ "/close-delimited-response")%string else t in
+  (* what a download returns without an error is the server's bytes *)
+  tag_if (altered (o_res1 c) || altered (o_res2 c) || altered (o_adv1 c) || altered (o_adv2 c))
+    "viol:delivered-not-prefix-of-server-bytes" ++
+  (if i_cached c then
+     (* c20_cached_download_complete_or_error on the real cache directory *)
+     tag_if (short (o_adv1 c) || short (o_adv2 c) || short (o_res1 c) || short (o_res2 c)) (sfx "viol:cached-short-body") ++
+     tag_if (negb (Nat.eqb (o_tmps1 c) 0 && Nat.eqb (o_tmps2 c) 0)) "viol:temporary-file-left-behind"
+   else
+     tag_if (short (o_res1 c) || short (o_res2 c)) (sfx "viol:eof-before-complete")) ++
+  (* the second, fault-free download completes (unless the cache holds a short body: the finding above);
+     the first one when it is inside the completion theorem's hypotheses *)
+  tag_if (i_live c && negb (bytes_opt_eqb (o_res1 c) (Some dat))) "viol:tolerable-faults-not-survived" ++
+  tag_if (negb (short (o_adv1 c)) && negb (bytes_opt_eqb (o_res2 c) (Some dat))) "viol:healthy-download-after-faulty-one-fails" ++
+  (if i_cached c && i_model c then
+     let d0 := {| adv := None; tmps := [] |} in
+     match cached_fetch code_cshape dat (i_conn c) (i_reads c) d0 with
+     | Ok (d1, r1, _) =>
+         tag_if (negb (bytes_opt_eqb r1 (o_res1 c))) "mismatch:cached-index-result" ++
+         tag_if (negb (bytes_opt_eqb (adv d1) (o_adv1 c))) "mismatch:cached-index-advertised" ++
+         tag_if (negb (Nat.eqb (List.length (tmps d1)) (o_tmps1 c))) "mismatch:cached-index-temporaries" ++
+         match cached_fetch code_cshape dat CServe [] d1 with
+         | Ok (d2, r2, _) =>
+             tag_if (negb (bytes_opt_eqb r2 (o_res2 c))) "mismatch:cached-index-second-result" ++
+             tag_if (negb (bytes_opt_eqb (adv d2) (o_adv2 c))) "mismatch:cached-index-second-advertised" ++
+             tag_if (negb (Nat.eqb (List.length (tmps d2)) (o_tmps2 c))) "mismatch:cached-index-second-temporaries"
+         | _ => ["mismatch:model-out-of-fuel"]
+         end
+     | _ => ["mismatch:model-out-of-fuel"]
+     end
+   else []).
